@@ -19,7 +19,7 @@ def judge(ctx, pid):
         for f in res.findings:
             key = re.sub(r"\{closure#\d+\}", "{closure}", f.key)
             if key not in known:
-                out.append("%s %s:%s" % (res.rule, f.file, f.line))
+                out.append("%s %s:%s" % (res.rule, f.file, f.line) + ((" :: " + f.msg[:400]) if os.environ.get("VERBOSE") else ""))
         for (n, c, fl) in res.floor_failures(reference=bool(getattr(ctx, '_is_ref', False))):
             out.append("%s floor %s %d<%d" % (res.rule, n, c, fl))
     return out
